@@ -174,6 +174,21 @@ def run_case(case):
                 if mode == "copy-decoy-prehash" and a.parity_bytes() != par0:
                     V.append(("prehash-did-not-protect-parity", "%s: parity changed although pre-hash met a decoy" % label, rep))
                 res["counters"]["decoys_matched_by_copy_detection"] = res["counters"].get("decoys_matched_by_copy_detection", 0) + len(hit)
+            # the refused copy is now recorded (REP blocks in the saved state): a LATER sync with pre-hash, with more changes
+            # pending in other stripes, must again stop before any parity byte is written
+            if hit and mode in ("copy-decoy", "copy-decoy-prehash") and r.rc != 0 and rng.random() < 0.7:
+                # (new files only: changing the decoy or its source would legitimately end the "copy" relation)
+                scen.mutate(fs, rng, rng.randint(1, 3), hostile=0.1, ops=["create"], maxblocks=3)
+                par1 = a.parity_bytes()
+                rr = a.cmd("sync", "-E", "-Z", "-h", *opts, variant=variant)
+                hist.append(("sync -h again", rr.rc))
+                for s_ in rr.san:
+                    V.append(("sanitizer:" + A.san_key(s_), s_[:2000], rep))
+                res["counters"]["second_prehash_syncs"] = res["counters"].get("second_prehash_syncs", 0) + 1
+                if rr.rc == 0:
+                    V.append(("decoy-accepted-sync-exit-ok", "%s: a second sync -h exited 0 although the recorded copy still does not match" % label, rep))
+                if a.parity_bytes() != par1:
+                    V.append(("prehash-did-not-protect-parity", "%s: a second sync -h (rc=%s) changed parity although pre-hash met the refused copy again" % (label, rr.rc), rep))
             # a following plain sync must converge to a fully valid state
             r2 = a.cmd("sync", "-E", "-Z", *opts, variant=variant)
             r3 = a.cmd("sync", "-E", "-Z", *opts, variant=variant)
